@@ -27,6 +27,7 @@ class Ctx:
         return rule.split('/')[0]
 
     def ok(self, rule, template, site='', **detail):
+        rule = rule.replace(' ', '')
         self.instances.append(dict(id=rule, template=template, verdict='ok', site=site, **detail))
         f = self._fam(rule); self.families[f] = self.families.get(f, 0) + 1
 
@@ -34,6 +35,7 @@ class Ctx:
         self.instances.append(dict(id=rule, template=template, verdict='undecided', site=site, why=why))
 
     def bad(self, rule, template, fn, detail, site='', **extra):
+        rule = rule.replace(' ', '')
         key = '%s|%s|%s' % (rule, fn, detail)
         self.instances.append(dict(id=rule, template=template, verdict='violation', site=site, detail=detail, fn=fn))
         f = self._fam(rule); self.families[f] = self.families.get(f, 0) + 1
